@@ -36,7 +36,7 @@ static const char *VALN[NFIELDS][10] = {
     { "off", "on" }, { "off", "on" },
     { "none", "m@(0,0)", "m@(1,0)", "m@(0,0)+accessors-set-on-the-map-image-itself(only the map is touched if it is already attached there)" },
     { "off", "on" }, { "off", "on(xor-1 read/write callbacks)" },
-    { "none", "ordered-bayer-8", "ordered-blue-noise-64" }, { "(0,0)", "(1,2)" },
+    { "none", "ordered-bayer-8", "ordered-blue-noise-64" }, { "(0,0)", "(13,44)" },
     { "p1", "p2", "p3(= p1 in the first half of both tables)", "own-copy-of-p1(all entries opaque)", "own-copy-of-p1-with-odd-entries-translucent(edited IN PLACE if the own copy is already attached)" },
     { "none", "served-as-the-alpha-map-of-a-temporary-image(drawn,then-detached,then-that-image-destroyed)", "served-as-the-alpha-map-of-a-temporary-image-that-was-destroyed-while-attached" },
 };
@@ -197,7 +197,7 @@ static void apply_setter(obj_t *o, int f, int v)
     case F_CA: pixman_image_set_component_alpha(im, v ? ph_truthy((uint64_t)o->kind + 2) : 0); break;
     case F_ACC: if (v) pixman_image_set_accessors(im, acc_read, acc_write); else pixman_image_set_accessors(im, NULL, NULL); break;
     case F_DITH: { static const pixman_dither_t d[3] = { PIXMAN_DITHER_NONE, PIXMAN_DITHER_ORDERED_BAYER_8, PIXMAN_DITHER_ORDERED_BLUE_NOISE_64 }; pixman_image_set_dither(im, d[v]); break; }
-    case F_DOFF: pixman_image_set_dither_offset(im, v ? 1 : 0, v ? 2 : 0); break;
+    case F_DOFF: pixman_image_set_dither_offset(im, v ? 13 : 0, v ? 44 : 0); break;      /* beyond the 8x8 matrix, inside the 64x64 one: the offset outlives a change of the dither mode */
     case F_PAL:
         if (v < 3) pixman_image_set_indexed(im, pal[v]);
         else {
@@ -252,7 +252,7 @@ static const char *model_mismatch(const obj_t *o, const ast_t *s)
         if (o->amap && (o->amap->bits.read_func != NULL) != (s->v[F_AMAP] == 3)) return "alpha map image accessors";
         if ((o->img->bits.read_func != NULL) != (s->v[F_ACC] != 0)) return "accessors";
         if ((int)o->img->bits.dither != (s->v[F_DITH] == 0 ? PIXMAN_DITHER_NONE : s->v[F_DITH] == 1 ? PIXMAN_DITHER_ORDERED_BAYER_8 : PIXMAN_DITHER_ORDERED_BLUE_NOISE_64)) return "dither";
-        if (o->img->bits.dither_offset_x != (s->v[F_DOFF] ? 1 : 0) || o->img->bits.dither_offset_y != (s->v[F_DOFF] ? 2 : 0)) return "dither_offset";
+        if (o->img->bits.dither_offset_x != (s->v[F_DOFF] ? 13 : 0) || o->img->bits.dither_offset_y != (s->v[F_DOFF] ? 44 : 0)) return "dither_offset";
         if (o->kind == K_C8 && o->img->bits.indexed != (s->v[F_PAL] < 3 ? pal[s->v[F_PAL]] : o->ownpal)) return "indexed";
     }
     return NULL;
